@@ -36,7 +36,7 @@ inductive Field
   | args | env | depsPaths | depsStyle | inheritEnv | canSafelyInterrupt | signatureData | cachedSignature
   -- BuildNode
   | type
-  -- ClangShellCommand / SwiftCompilerShellCommand / SymlinkCommand (recipes are generated as data; no CommandDef binding)
+  -- ClangShellCommand (`args`) / SwiftCompilerShellCommand / SymlinkCommand
   | executable | moduleName | moduleAliases | moduleOutputPath | sourcesList | objectsList | importPaths
   | tempsPath | otherArgs | isLibrary | contents
   deriving DecidableEq, Repr
@@ -98,7 +98,15 @@ abbrev Recipe := List Step
 
 /-- A command definition after loading, restricted to what `getSignature` can read.
 `depsStyle` is the ordinal of `ShellCommand::DepsStyle` (0 unused, 1 makefile, 2 dependency-info,
-3 makefile-ignoring-subsequent-outputs). -/
+3 makefile-ignoring-subsequent-outputs).
+
+The members after `signatureData` belong to the other classes whose `getSignature` is regenerated
+(they default to the value a freshly constructed object has, so shell / phony definitions need not
+mention them): `args` is shared by ShellCommand and ClangShellCommand; `executable` … `isLibrary`
+are SwiftCompilerShellCommand's; `contents` is SymlinkCommand's; `type` (ordinal of
+`BuildNode::NodeType`: 0 plain, 1 directory, 2 directory-structure, 3 virtual) and `producers`
+(names of the commands returned by `getProducers()`) are BuildNode's — for that class `name` is
+unused by the recipe. -/
 structure CommandDef where
   name : Bytes
   inputs : List Bytes
@@ -113,6 +121,22 @@ structure CommandDef where
   inheritEnv : Bool
   canSafelyInterrupt : Bool
   signatureData : Bytes
+  -- SwiftCompilerShellCommand
+  executable : Bytes := []
+  moduleName : Bytes := []
+  moduleAliases : List Bytes := []
+  moduleOutputPath : Bytes := []
+  sourcesList : List Bytes := []
+  objectsList : List Bytes := []
+  importPaths : List Bytes := []
+  tempsPath : Bytes := []
+  otherArgs : List Bytes := []
+  isLibrary : Bool := false
+  -- SymlinkCommand
+  contents : Bytes := []
+  -- BuildNode
+  type : Nat := 0
+  producers : List Bytes := []
   deriving DecidableEq, Repr
 
 inductive Val
@@ -141,7 +165,19 @@ def CommandDef.member (d : CommandDef) : Field → Option Val
   | .inheritEnv => some (.bool d.inheritEnv)
   | .canSafelyInterrupt => some (.bool d.canSafelyInterrupt)
   | .signatureData => some (.str d.signatureData)
-  | _ => none
+  | .executable => some (.str d.executable)
+  | .moduleName => some (.str d.moduleName)
+  | .moduleAliases => some (.strs d.moduleAliases)
+  | .moduleOutputPath => some (.str d.moduleOutputPath)
+  | .sourcesList => some (.strs d.sourcesList)
+  | .objectsList => some (.strs d.objectsList)
+  | .importPaths => some (.strs d.importPaths)
+  | .tempsPath => some (.str d.tempsPath)
+  | .otherArgs => some (.strs d.otherArgs)
+  | .isLibrary => some (.bool d.isLibrary)
+  | .contents => some (.str d.contents)
+  | .type => some (.int d.type)
+  | .cachedSignature => none      -- only touched by cacheLoad / cacheStore, never an argument
 
 def Val.elems : Val → Option (List Val)
   | .strs l => some (l.map .str)
@@ -151,6 +187,7 @@ def Val.elems : Val → Option (List Val)
 
 def callMethod (d : CommandDef) : Val → Method → Option Val
   | .cmd, .getName => some (.str d.name)
+  | .cmd, .getProducers => some (.nodes d.producers)     -- commands; the recipe only calls getName() on them
   | .node n, .getName => some (.str n)
   | .strs l, .size => some (.int l.length)
   | .nodes l, .size => some (.int l.length)
